@@ -248,13 +248,24 @@ func (g *gen) next(w *world) []string {
 			if g.family == "sizes" {
 				sz = []int{0, 1, 65537, 1 << 20, maxp - 1, maxp, maxp + 1, maxp + 100000, maxp / 2}[g.r.Intn(9)]
 			}
-			add(40, "rt", "response", "cur", fmt.Sprint(sz), fills[g.r.Intn(len(fills))])
+			if g.family == "sizes" && g.r.Intn(3) == 0 {
+				add(40, "rt", "response", "cur", fmt.Sprint(sz), fills[g.r.Intn(len(fills))], "chunked")
+			} else {
+				add(40, "rt", "response", "cur", fmt.Sprint(sz), fills[g.r.Intn(len(fills))])
+			}
+			if g.family == "sizes" {
+				add(8, "rt", "next") // the same (possibly cut) event again
+			}
 			add(6, "rt", "error", "cur", []string{"Function.Oops", "Runtime.Bad", "garbage_type"}[g.r.Intn(3)])
 			add(misuse, "rt", "next")
 			add(misuse, "rt", "response", "cur", "3", "rand", "mode=bogus")
 		}
 		add(misuse, "rt", "response", "bogus", "3", "rand")
 		add(misuse, "rt", "response", "cur", "3", "rand")
+		if g.rtHolding {
+			add(misuse, "rt", "response", "curup", "3", "rand") // the current id in another spelling is another id
+			add(misuse/2, "rt", "error", "curup", "Function.Case")
+		}
 		add(misuse, "rt", "error", "id#1", "Function.Stale")
 		add(misuse, "rt", "initerror", "Runtime.Late")
 		add(misuse, "rt", "restorenext")
@@ -296,7 +307,7 @@ func (g *gen) next(w *world) []string {
 			add(5, "rt", "initerror", []string{"Function.RestoreInit", "bad_type<1>", "Function.bad;DROP", "Runtime.Ok"}[g.r.Intn(4)])
 			add(6, "sleep", "400")
 		}
-		add(6, "rt", "creds", []string{"good", "wrong", "good", ""}[g.r.Intn(3)])
+		add(6, "rt", "creds", []string{"good", "wrong", "good", "bearer", "upper"}[g.r.Intn(5)])
 		add(2, "rt", "raw", []string{"GET", "PUT"}[g.r.Intn(2)], "/2018-06-01/runtime/restore/error") // snapshot-only routes, wrong method
 		add(2, "rt", "raw", "POST", "/2021-04-23/credentials")
 		add(2, "exit", "runtime", "1")
